@@ -63,27 +63,33 @@ def r2_start(ctx, chk, rule="C01.2"):
         chk.undecided(rule, f.where(), "initial reach_probability `%s` under `%s` not recognised" % (show(val), show(cond)))
         return
     # the flag passed by init_states is `idx in self.final_states` with idx the state's own position
-    g = ctx.func("tad.py::StochasticGame.init_states")
-    sx = SymX(ctx, g, "StochasticGame", inline_depth=0).run()
+    try:
+        T = shared.init_states_table(ctx)
+    except AnalysisError as e:
+        chk.undecided(rule, "tad.py StochasticGame.init_states", str(e))
+        return
+    g, L = T["f"], T["loop"]
     n = 0
-    for l in sx.loops.values():
-        if l.kind != "for":
+    for (P, nonempty), t in T["rows"].items():
+        if not nonempty or P == "<unknown player>":
             continue
-        for v, u in l.update.items():
-            for ctor in _collect_calls(u, set(ctx.cg.player_class.values())):
-                n += 1
-                kws = dict(ctor[3])
-                fin = kws.get("is_final_node")
-                idx = kws.get("idx")
-                want_fin = simp(("cmp", "in", ("pos", l.id), ("attr", ("v", "self"), "final_states")))
-                if fin is None or idx is None:
-                    chk.undecided(rule, g.where(), "%s(...) is not called with idx= and is_final_node= keywords" % ctor[1])
-                elif idx != ("pos", l.id) or fin != want_fin:
-                    chk.violation(rule, g.where(), "%s is built with idx=%s, is_final_node=%s" % (ctor[1], show(idx), show(fin)),
-                                  expected="idx=<position>, is_final_node=(<position> in self.final_states)", found=show(fin),
-                                  construct="init_states final flag of %s" % ctor[1])
-                else:
-                    chk.ok(rule, g.where(), "%s(idx=<position>, is_final_node=<position> in self.final_states)" % ctor[1])
+        ctors = _collect_calls(t, set(ctx.cg.player_class.values()))
+        if len(ctors) != 1:
+            chk.undecided(rule, g.where(), "construction for a %s state not recognised: %s" % (P, show(t)[:120]))
+            continue
+        ctor = ctors[0]
+        n += 1
+        kws = dict(ctor[3])
+        fin, idx = kws.get("is_final_node"), kws.get("idx")
+        want_fin = simp(("cmp", "in", ("pos", L.id), ("attr", ("v", "self"), "final_states")))
+        if fin is None or idx is None:
+            chk.undecided(rule, g.where(), "%s(...) is not called with idx= and is_final_node= keywords" % ctor[1])
+        elif idx != ("pos", L.id) or fin != want_fin:
+            chk.violation(rule, g.where(), "%s is built with idx=%s, is_final_node=%s" % (ctor[1], show(idx), show(fin)),
+                          expected="idx=<position>, is_final_node=(<position> in self.final_states)", found=show(fin),
+                          construct="init_states final flag of %s" % ctor[1])
+        else:
+            chk.ok(rule, g.where(), "%s(idx=<position>, is_final_node=<position> in self.final_states)" % ctor[1])
     if n < 3:
         chk.undecided(rule, g.where(), "expected three node constructions in init_states, found %d" % n)
 
@@ -119,6 +125,17 @@ def field_writers(ctx, field, modules=("tad.py", "reverse_dfs.py")):
 
 def r3_writers(ctx, chk, rule="C01.3"):
     allowed = {"tad.py::Node.__init__", SOLVER_VIR}
+    # private helpers of the sweep (every caller is the sweep or another such helper) count as the sweep
+    changed = True
+    while changed:
+        changed = False
+        for g in ctx.prog.all_funcs(("tad.py",)):
+            if g.qual in allowed:
+                continue
+            callers = {c.qual for c, _ in ctx.cg.callers_of(g)}
+            if callers and callers <= (allowed - {"tad.py::Node.__init__"}):
+                allowed.add(g.qual)
+                changed = True
     ws = field_writers(ctx, REACH)
     for f, n in ws:
         if f.qual in allowed:
@@ -190,7 +207,7 @@ def _all_terms(sx):
 def sweep_nf(ctx, chk, rule, qual, fields, kernel_meth, domain_is_param):
     """Normal form of a `while diff > threshold` sweep. fields: [(field, slot or None)] written per element."""
     f = ctx.func(qual)
-    sx = SymX(ctx, f, "Solver", inline_depth=0).run()
+    sx = SymX(ctx, f, "Solver", inline_depth=2).run()      # private helper methods of the sweep are judged by content
     whiles = [l for l in sx.loops.values() if l.kind == "while"]
     if len(whiles) != 1:
         chk.undecided(rule, f.where(), "%d while loops found; expected the single convergence loop" % len(whiles))
